@@ -326,6 +326,10 @@ func (m *Machine) monitorList(after string) {
 			m.monitorViolation("list-order", fmt.Sprintf("tables.list names %s with min update index %d <= previous max %d, after %s", n, mn, lastMax, after))
 			return
 		}
+		if mx < mn {
+			m.monitorViolation("list-range-inverted", fmt.Sprintf("tables.list names %s with update-index range [%d, %d], after %s", n, mn, mx, after))
+			return
+		}
 		lastMax = mx
 	}
 }
